@@ -138,7 +138,7 @@ func (e *c02Env) trace(w *vWriter, in c02TraceIn) {
 	pre := vcLinBefore(s)
 	pre.Term = readTerm
 	err := s.waitForLinearizableRead(readTerm, int64(5*time.Second))
-	coq, verified, _ := vcLinAfter(s, pre, err)
+	coq, verified, vok := vcLinAfter(s, pre, err)
 	if s.raft.CurrentTerm() != term || s.IsLeader() != pre.Leader {
 		w.Emit(VCase{Input: in, Key: key, Inconcl: "leadership changed during the trace", Tags: tags})
 		return
@@ -150,6 +150,11 @@ func (e *c02Env) trace(w *vWriter, in c02TraceIn) {
 		Coq:        fmt.Sprintf("CTrace {| c_obs := %s; c_result := %s; c_verified := %s |}", coq, res, coqBool(verified))}
 	// property-level statements that need no model: a node that is not leader, or is asked about a term
 	// that is over, or has not had a strong read in this term, never passes
+	if err == nil && !vok {
+		// "the node confirmed leadership with a quorum" - for this read, not for an earlier one
+		c.OracleFail = fmt.Sprintf("waitForLinearizableRead returned nil on %s without a successful VerifyLeader of its own (term %d)", in.Role, term)
+		c.Sig = "C02:linearizable-read-without-leadership-check"
+	}
 	if err == nil && (!pre.Leader || readTerm != term || pre.Srt != readTerm) {
 		c.OracleFail = fmt.Sprintf("waitForLinearizableRead passed on %s with leader=%v read term %d current term %d strongReadTerm %d", in.Role, pre.Leader, readTerm, term, pre.Srt)
 		c.Sig = "C02:read-protocol-passed-without-" + map[bool]string{true: "leadership", false: "current-term-strong-read"}[!pre.Leader]
@@ -587,7 +592,11 @@ func TestVerif_C02(t *testing.T) {
 		case "deposed-writes":
 			var in c02WriteIn
 			json.Unmarshal(raw, &in)
-			c02RunDeposedWrites(t, w, []c02WriteIn{in})
+			c02RunDeposedWrites(t, w, []c02WriteIn{in}, nil)
+		case "transfer-read":
+			var in c02TransferIn
+			json.Unmarshal(raw, &in)
+			c02RunDeposedWrites(t, w, nil, []c02TransferIn{in, in})
 		case "first":
 			var in c02FirstIn
 			json.Unmarshal(raw, &in)
@@ -646,7 +655,11 @@ func TestVerif_C02(t *testing.T) {
 			dw = append(dw, c02WriteIn{Kind: "deposed-writes", K: 3, Entry: "request", Round: r}, c02WriteIn{Kind: "deposed-writes", K: 1, Entry: "execute", Round: r})
 		}
 	}
-	c02RunDeposedWrites(t, w, dw)
+	var trs []c02TransferIn
+	for r := 0; r < vN(1, 8); r++ {
+		trs = append(trs, c02TransferIn{Kind: "transfer-read", Entry: "query", Round: r}, c02TransferIn{Kind: "transfer-read", Entry: "request", Round: r})
+	}
+	c02RunDeposedWrites(t, w, dw, trs)
 	seed := vSeed()
 	nw := vN(2, 60)
 	for i := 0; i < nw; i++ {
